@@ -35,8 +35,8 @@ func refA(dst *DstA, src *SrcA, typecast bool) {
 	}
 }
 
-func ref_CastA(src *SrcA) *DstA   { dst := &DstA{}; refA(dst, src, true); return dst }
-func ref_NoCastA(src *SrcA) *DstA { dst := &DstA{}; refA(dst, src, false); return dst }
+func ref_CastA(src *SrcA) *DstA      { dst := &DstA{}; refA(dst, src, true); return dst }
+func ref_NoCastA(src *SrcA) *DstA    { dst := &DstA{}; refA(dst, src, false); return dst }
 func ref_IntoA(dst *DstA, src *SrcA) { refA(dst, src, true) }
 
 func refB(dst *DstB, src *SrcB) {
@@ -56,7 +56,7 @@ func refB(dst *DstB, src *SrcB) {
 	copyInts(&dst.Shared, src.Shared)
 }
 
-func ref_CopyB(src *SrcB) *DstB      { dst := &DstB{}; refB(dst, src); return dst }
+func ref_CopyB(src *SrcB) *DstB     { dst := &DstB{}; refB(dst, src); return dst }
 func ref_IntoB(dst *DstB, src SrcB) { refB(dst, &src) }
 
 func ref_CopyN(src *SrcN) *DstN {
@@ -70,5 +70,17 @@ func ref_CopyN(src *SrcN) *DstN {
 			dst.Items[i] = e
 		}
 	}
+	return dst
+}
+
+func ref_FromGetters(src *SrcG) *DstG {
+	dst := &DstG{}
+	if src.tracks != nil {
+		dst.Tracks = make([]string, len(src.tracks))
+		for i := range src.tracks {
+			dst.Tracks[i] = src.tracks[i]
+		}
+	}
+	copyInts(&dst.Scores, src.scores)
 	return dst
 }
